@@ -507,6 +507,9 @@ type c03Named struct {
 	Class string // abstract class for the cell
 	State *string
 	Cks   [][2]string
+	// RefCks: what the reference is asked about instead of Cks — used for cookies that are NOT byte-identical to the one the
+	// instance set but are what a replica of the same proxy (same secret) with a skewed clock would have set for this login
+	RefCks [][2]string
 }
 
 func c03Str(s string) *string { return &s }
@@ -710,6 +713,16 @@ func (cs *c03Case) cookieVariants(X, Y, Y2 *c03Login, Zs []*c03Login, S *c03Logi
 	// forged with the harness' own implementation of the cookie format
 	parts := strings.Split(X.CookieValue, "|")
 	if len(parts) == 3 && c03Sign(X.Inst.Secret, X.CookieName, parts[0], parts[1]) == parts[2] {
+		// the same CSRF content as a replica sharing the cookie secret would have issued it with its clock ahead of / behind
+		// this instance's (the documented allowance for time stamps ahead is 5 minutes; beyond that nothing is demanded)
+		for _, sk := range []struct {
+			name string
+			d    int64
+		}{{"3s-ahead", 3}, {"30s-ahead", 30}, {"2min-ahead", 120}, {"4min59s-ahead", 299}, {"30s-behind", -30}, {"10min-behind", -600}} {
+			ts := strconv.FormatInt(time.Now().Unix()+sk.d, 10)
+			vs = append(vs, c03Named{Name: "own-issued-with-clock-" + sk.name, Class: "own-issued-under-skewed-clock",
+				Cks: [][2]string{{X.CookieName, parts[0] + "|" + ts + "|" + c03Sign(X.Inst.Secret, X.CookieName, parts[0], ts)}}, RefCks: [][2]string{own}})
+		}
 		now := strconv.FormatInt(time.Now().Unix(), 10)
 		vs = append(vs,
 			c03Named{Name: "own-ciphertext-resigned-with-sibling-secret", Class: "resigned", Cks: [][2]string{{X.CookieName, parts[0] + "|" + parts[1] + "|" + c03Sign(c03SecretB, X.CookieName, parts[0], parts[1])}}},
@@ -734,7 +747,11 @@ func (cs *c03Case) cookieVariants(X, Y, Y2 *c03Login, Zs []*c03Login, S *c03Logi
 
 func (cs *c03Case) attempt(R *c03Inst, X *c03Login, sv, cv c03Named, part string) {
 	run := cs.Run
-	L, may, must := cs.reference(R, sv.State, cv.Cks)
+	refCks := cv.Cks
+	if cv.RefCks != nil {
+		refCks = cv.RefCks
+	}
+	L, may, must := cs.reference(R, sv.State, refCks)
 	K := X
 	if L != nil {
 		K = L
@@ -820,7 +837,7 @@ func c03Configs(thorough bool, seed int64) []c03Cfg {
 func TestVerif_C03(t *testing.T) {
 	run := vfNewRun(t, "C03", "exploration")
 	run.SetRule("Part A: per configuration 2 browsers x 3 interleaved logins (start?rd= / protected URL) on the main instance plus logins on a sibling with another cookie secret and on a sibling with the opposite --encode-state; " +
-		"every login X x ~55 presented-cookie sets (own, other login, other browser, tampered value/timestamp/signature, characters appended to each field / trailing '|', re-signed/re-encrypted with the sibling secret, absent, own+other in both orders, values under foreign names, duplicate names) x 26 state variants " +
+		"every login X x ~55 presented-cookie sets (own, other login, other browser, issued by a replica with a skewed clock (3 s … 4 min 59 s ahead, behind), tampered value/timestamp/signature, characters appended to each field / trailing '|', re-signed/re-encrypted with the sibling secret, absent, own+other in both orders, values under foreign names, duplicate names) x 26 state variants " +
 		"(verbatim, redirect changed, nonce of another login, truncated, empty, nonce prefix/extension/changed char, encoding mismatch), received by the main and both sibling instances. " +
 		"Part B: real cookie jars, 1-3 logins per browser, all completion permutations and seeded random start/complete/replay walks. " +
 		"cell = (csrf-per-request, encode-state, PKCE, skip-nonce, receiver, cookie class, state class, expected) ; non-trivial = every callback (each needs a started login)")
